@@ -222,6 +222,16 @@ def cmd_check(prop, tier, base_seed, workers, no_selftest=False, limit=None):
                               'runs request-response, fire-and-forget, request-stream and two request-channels with that payload shape; '
                               'quick strides through the window, thorough visits every point once' % list(checks.P.FRAG_GRID_F)),
         })
+    if agg['by_profile'].get('peer-script-grid'):
+        from . import profiles_peer as _PP
+        evidence['coverage'].update({
+            'peer_sequence_points_run': agg['by_profile']['peer-script-grid'],
+            'peer_sequence_points_total': _PP.peer_grid_size(),
+            'peer_sequence_space': ('real endpoint role {client, server} x model {request-response, stream, channel} x side {requester, '
+                                    'responder} x every sequence of 0..%d protocol-legal peer frames (NEXT, NEXT|COMPLETE, COMPLETE, ERROR, '
+                                    'REQUEST_N, CANCEL as far as legal in that state); local actions, timings and the connection end are '
+                                    'seeded per point; quick strides through the space, thorough visits every point once' % _PP.PEER_GRID_MAXLEN),
+        })
     if agg.get('sweep_bases'):
         evidence['coverage'].update({
             'sweep_base_plans': agg['sweep_bases'],
